@@ -32,7 +32,7 @@ Classes == [
   runXf     |-> {"ok", "none", "short", "nan", "singular"},
   runFlags  |-> {"ok", "none", "short", "long", "allbits"},
   faceID    |-> {"ok", "none", "short", "long", "huge"},
-  tangents  |-> {"none", "ok", "short", "long", "nan", "notMult4"},
+  tangents  |-> {"none", "ok", "short", "long", "nan", "notMult4", "quadmark1"},   \* quadmark1: a quad mark (w = -1) on ONE halfedge of an edge only
   tolerance |-> {"ok", "negative", "nan", "inf", "huge"} ]
 Fields == DOMAIN Classes
 Nominal == [f \in Fields |-> IF f = "tangents" THEN "none" ELSE "ok"]
